@@ -98,6 +98,70 @@ pub fn gen_fixtures(dir: &str) -> Result<(), openssl::error::ErrorStack> {
     Ok(())
 }
 
+/// Added later (`chk gen-fixtures-tiny <dir>`): a CA whose DER encoding is shorter than 256 octets
+/// (Ed25519 key, minimal names and extensions: the encoding starts 30 81, not 30 82) and a leaf for
+/// localhost signed by it. Does not touch the other fixtures.
+pub fn gen_tiny_fixtures(dir: &str) -> Result<(), openssl::error::ErrorStack> {
+    use openssl::asn1::Asn1Time;
+    use openssl::bn::{BigNum, MsbOption};
+    use openssl::ec::{EcGroup, EcKey};
+    use openssl::hash::MessageDigest;
+    use openssl::nid::Nid;
+    use openssl::pkey::PKey;
+    use openssl::x509::extension::{BasicConstraints, ExtendedKeyUsage, KeyUsage, SubjectAlternativeName};
+    use openssl::x509::{X509NameBuilder, X509};
+    let d = std::path::Path::new(dir);
+    let cakey = PKey::generate_ed25519()?;
+    let mut nb = X509NameBuilder::new()?;
+    nb.append_entry_by_text("CN", "t")?;
+    let caname = nb.build();
+    let mut b = X509::builder()?;
+    b.set_version(2)?;
+    let mut serial = BigNum::new()?;
+    serial.rand(30, MsbOption::MAYBE_ZERO, false)?;
+    let serial = serial.to_asn1_integer()?;
+    b.set_serial_number(&serial)?;
+    b.set_subject_name(&caname)?;
+    b.set_issuer_name(&caname)?;
+    b.set_pubkey(&cakey)?;
+    let (nbf, naf) = (Asn1Time::from_str("20200101000000Z")?, Asn1Time::from_str("21200101000000Z")?);
+    b.set_not_before(&nbf)?;
+    b.set_not_after(&naf)?;
+    b.append_extension(BasicConstraints::new().critical().ca().build()?)?;
+    b.sign(&cakey, MessageDigest::null())?;
+    let ca = b.build();
+    std::fs::write(d.join("catiny.pem"), ca.to_pem()?).unwrap();
+    std::fs::write(d.join("catiny.der"), ca.to_der()?).unwrap();
+    // leaf
+    let g = EcGroup::from_curve_name(Nid::X9_62_PRIME256V1)?;
+    let lk = PKey::from_ec_key(EcKey::generate(&g)?)?;
+    let mut nb = X509NameBuilder::new()?;
+    nb.append_entry_by_text("CN", "localhost")?;
+    let lname = nb.build();
+    let mut b = X509::builder()?;
+    b.set_version(2)?;
+    let mut serial = BigNum::new()?;
+    serial.rand(100, MsbOption::MAYBE_ZERO, false)?;
+    let serial = serial.to_asn1_integer()?;
+    b.set_serial_number(&serial)?;
+    b.set_subject_name(&lname)?;
+    b.set_issuer_name(&caname)?;
+    b.set_pubkey(&lk)?;
+    b.set_not_before(&nbf)?;
+    b.set_not_after(&naf)?;
+    b.append_extension(BasicConstraints::new().critical().build()?)?;
+    b.append_extension(KeyUsage::new().critical().digital_signature().build()?)?;
+    b.append_extension(ExtendedKeyUsage::new().server_auth().build()?)?;
+    let ext = SubjectAlternativeName::new().dns("localhost").build(&b.x509v3_context(Some(&ca), None))?;
+    b.append_extension(ext)?;
+    b.sign(&cakey, MessageDigest::null())?;
+    let leaf = b.build();
+    std::fs::write(d.join("validtiny.pem"), leaf.to_pem()?).unwrap();
+    std::fs::write(d.join("validtiny.key.pem"), lk.private_key_to_pem_pkcs8()?).unwrap();
+    println!("catiny.der is {} octets, starts {:02x} {:02x}", ca.to_der()?.len(), ca.to_der()?[0], ca.to_der()?[1]);
+    Ok(())
+}
+
 // ------------------------------------------------------------------------------------------------
 
 fn absorb(ctx: &Ctx, results: &[Value]) {
@@ -132,7 +196,7 @@ fn rustls_half(tier: &str, extra: &[&str]) -> Result<Vec<Value>, String> {
 }
 
 pub fn run(ctx: &Ctx) {
-    ctx.set_rule("complete enumeration of the finite matrix {blocking, async} x {native-tls, rustls} x ignore flag {unset, false, true} x extra root {none, issuing CA as PEM, as DER, unrelated CA} x server certificate {valid for localhost, wrong host name, expired, self-signed leaf, signed by another CA} = 240 cells, plus 80 cells with IP-literal targets (127.0.0.1 and [::1]: the fixtures name only DNS:localhost, so the supplied-root cells must be rejected for every certificate), each one real TLS connection from the library's client to a loopback TLS server (openssl) on ipps://localhost:<port>/ using committed certificate fixtures (thorough: also an IP-literal target, and the whole matrix 3 times in different cell orders; the quick run puts permissive cells before strict ones inside each block so that state leaking between clients would show). Oracle = policy model: must-reject => Err and 0 application bytes seen by the server after the handshake; must-accept => the scripted response. Non-trivial = every cell except {valid, issuing CA as PEM, flag unset}; distinct by cell id.");
+    ctx.set_rule("complete enumeration of the finite matrix {blocking, async} x {native-tls, rustls} x ignore flag {unset, false, true} x extra root {none, issuing CA as PEM, as DER, unrelated CA} x server certificate {valid for localhost, wrong host name, expired, self-signed leaf, signed by another CA} = 240 cells, plus 80 cells with IP-literal targets (127.0.0.1 and [::1]: the fixtures name only DNS:localhost, so the supplied-root cells must be rejected for every certificate), plus 24 cells with a second, tiny CA (Ed25519, DER shorter than 256 octets) supplied as PEM and as DER, each one real TLS connection from the library's client to a loopback TLS server (openssl) on ipps://localhost:<port>/ using committed certificate fixtures (thorough: also an IP-literal target, and the whole matrix 3 times in different cell orders; the quick run puts permissive cells before strict ones inside each block so that state leaking between clients would show). Oracle = policy model: must-reject => Err and 0 application bytes seen by the server after the handshake; must-accept => the scripted response. Non-trivial = every cell except {valid, issuing CA as PEM, flag unset}; distinct by cell id.");
     ctx.assume("the system trust store of the image is whatever it is; the fixtures never chain to it");
     ctx.assume("cells with flag=true and a bad certificate are recorded but not asserted");
     ctx.set_exhaustive(true);
